@@ -31,7 +31,23 @@ Inductive case :=
 | CStorm (kinds : list pk) (n extra : N) (shutdowns xshutdowns : list N) (late : N) (fresh_records : bool) (flush_err shutdown_err : err)
 (** one round of concurrent Shutdown / ForceFlush callers on a fresh LoggerProvider / MeterProvider *)
 | CStormL (procs : list lk) (pshut xshut : list N) (shut_errs flush_errs : list err)
-| CStormM (readers : list rk) (xshut : list N) (shut_errs flush_errs collect_after : list err).
+| CStormM (readers : list rk) (xshut : list N) (shut_errs flush_errs collect_after : list err)
+(** trace provider built with WithSyncer / WithBatcher: the processors are inside the provider, only their
+    exporters are wrapped.  The processor-level calls cannot be observed: they are taken from the model;
+    error classes, flags, exporter-level calls and output are compared and judged as in [CT]. *)
+| CTO (kinds : list pk) (members : list N) (ops : list top) (obs : list obs)
+(** one stock span processor driven directly (model + spec); one stock log processor (spec only) *)
+| CD (k : pk) (ops : list dop) (obs : list obs)
+| CDL (k : lk) (ops : list dop) (obs : list obs)
+(** concurrent direct callers of one processor: exporter shutdowns seen, error classes returned *)
+| CDStorm (hasx : bool) (xshut : N) (errs : list err)
+(** one metric reader used directly and through [reg] providers *)
+| CR (r : rk) (reg : N) (ops : list rop) (obs : list obs)
+(** failing processors: ids for which ForceFlush and Shutdown report an error *)
+| CF (failing members : list N) (ops : list fop) (obs : list obs).
+
+Definition FReg_ (p : N) := FReg (n2 p).
+Definition FUnreg_ (p : N) := FUnreg (n2 p).
 
 (** Exporter-level calls are compared as multisets (they may come from worker goroutines). *)
 Definition callk_rank (k : callk) : nat :=
@@ -140,6 +156,34 @@ Definition check_case (c : case) : list N :=
       flag (lstorm_ok procs (map n2 ps) (map n2 xs) se fe) V_SPECFAIL
   | CStormM readers xs se fe ca =>
       flag (mstorm_ok readers (map n2 xs) se fe ca) V_SPECFAIL
+  | CTO kinds members ops obs =>
+      let ms := map n2 members in
+      let m := trun (kinds_fn kinds) (tinit ms) ops in
+      let obs' := map (fun mo => {| o_err := o_err (snd mo); o_flag := o_flag (snd mo); o_calls := o_calls (snd (fst mo));
+                                   o_xcalls := o_xcalls (snd mo); o_wrote := o_wrote (snd mo) |}) (combine m obs) in
+      flag (Nat.eqb (length ops) (length obs) && tmatch (kinds_fn kinds) (tinit ms) false ops obs') V_MISMATCH ++
+      flag (Nat.eqb (length ops) (length obs) && tspec_ok (kinds_fn kinds) ms (combine ops obs')) V_SPECFAIL ++
+      flag (tspec_ok (kinds_fn kinds) ms m) V_MODELSPEC
+  | CD k ops obs =>
+      let m := drun k pst0 ops in
+      flag (obs_list_eqb (map snd m) obs) V_MISMATCH ++
+      flag (Nat.eqb (length ops) (length obs) && dspec_ok (has_x k) (combine ops obs)) V_SPECFAIL ++
+      flag (dspec_ok (has_x k) m) V_MODELSPEC
+  | CDL k ops obs =>
+      flag (Nat.eqb (length ops) (length obs) && dspec_ok (has_std k) (combine ops obs)) V_SPECFAIL
+  | CDStorm hasx xs errs =>
+      flag (dstorm_ok hasx (n2 xs) errs) V_SPECFAIL
+  | CR r reg ops obs =>
+      let m := rrun r (n2 reg) rinit ops in
+      flag (obs_list_eqb (map snd m) obs) V_MISMATCH ++
+      flag (Nat.eqb (length ops) (length obs) && rspec_ok r (n2 reg) (combine ops obs)) V_SPECFAIL ++
+      flag (rspec_ok r (n2 reg) m) V_MODELSPEC
+  | CF failing members ops obs =>
+      let fails := fun p => mem p (map n2 failing) in
+      let m := frun fails (map n2 members, false) ops in
+      flag (obs_list_eqb (map snd m) obs) V_MISMATCH ++
+      flag (Nat.eqb (length ops) (length obs) && fspec_ok fails (map n2 members) (combine ops obs)) V_SPECFAIL ++
+      flag (fspec_ok fails (map n2 members) m) V_MODELSPEC
   end.
 
 Definition run (cs : list case) : list (N * N) := index_from 0 check_case cs.
